@@ -89,6 +89,23 @@ def field_offsets(cls):
     return out
 
 
+def critical_tail_units(cls):
+    """for a class whose last field is variable-length: numbers of characters / octets in that field for
+    which the armored payload is 59, 60, 61, 119, 120, 121 or 179, 180, 181 characters long - right at the
+    fragment boundaries of the encoder (a last fragment of exactly one character, an exactly full fragment)"""
+    fo = field_offsets(cls)
+    name, off, w, d_type, signed, varlen = fo[-1]
+    if not varlen:
+        return []
+    unit = 6 if d_type is str else 8
+    out = []
+    for n in range(1, w // unit + 1):
+        chars = (off + n * unit + 5) // 6
+        if chars in (59, 60, 61, 119, 120, 121, 179, 180, 181):
+            out.append(n)
+    return out
+
+
 def sentinel_patterns(w):
     pats = {'0' * w, '1' * w, '0' * (w - 1) + '1', '1' + '0' * (w - 1), '1' * (w - 1) + '0',
             '0' + '1' * (w - 1)}
